@@ -9,10 +9,11 @@ for d in "${dirs[@]}"; do
   d=$(realpath ${d%/})
   [ -f "$d/patch.diff" ] || continue
   if ! git -C /repo apply "$d/patch.diff" 2>/dev/null; then echo "$(basename $d): patch does not apply"; continue; fi
+  mkdir -p /tmp/seedcheck; cp /verif/known_findings.json /tmp/seedcheck/
   out=$(VERIF_EVIDENCE_DIR=/tmp/seedcheck-evidence ./bin/dmverif -prop all -verif /tmp/seedcheck 2>&1)
   git -C /repo checkout -- . ; git -C /repo clean -fdq
   hit=$(echo "$out" | grep -E '^(VIOLATION|UNDECIDED)' | sed -E 's/ replay=.*//' | tr '\n' ';')
   echo "$(basename $d): ${hit:-MISSED}"
-  echo "$out" | grep -E '^  violated' | head -5 | sed 's/^/      /'
+  echo "$out" | grep -E '^  violated' | grep -v KNOWN | head -4 | cut -c1-260 | sed 's/^/      /'
 done
 rm -rf /tmp/seedcheck
